@@ -284,6 +284,11 @@ def check(prog, rep):
     rep.rules[-1].rid = "R11"
     for ob in rep.rules[-1].obs:
         ob.rule = "R11"
+    for fn_, rid_ in ((c07.rule_eof, "R12"), (c07.rule_flush, "R13"), (c07.rule_models, "R14")):
+        fn_(prog, rep)  # reader stops only at end of file; every pending residue is flushed; only further models are left out
+        rep.rules[-1].rid = rid_
+        for ob in rep.rules[-1].obs:
+            ob.rule = rid_
     # ------------------------------------------------------------------ R7
     r7 = rep.rule("R7", "no template or patch defines two atoms of one name", floor=50)
     for name, ref in list(t.aa.items()) + list(t.na.items()):
